@@ -187,9 +187,20 @@ def check_case(case) -> Result:
 
             with warnings.catch_warnings():
                 warnings.simplefilter("ignore")
-                fp = lib("FlowPropertiesTwoPhase.from_table", FlowPropertiesTwoPhase.from_table, dict(tab), dict(kr_table), dict(rho), phi, sw, float(p_nodes[-1]))
+                # the rel-perm table's rows in decreasing oil saturation for every other case (row order carries no meaning)
+                kr_in = dict(kr_table)
+                if len(case["points"]) % 2 == 0:
+                    kr_in = {k: np.asarray(v)[::-1].copy() for k, v in kr_table.items()}
+                    res.labels["kr_rows"] = "descending-So"
+                # the water saturation handed to from_table is the one the storage uses; exactly 0.0 (no connate water)
+                # is a legitimate value whatever water saturation the rel-perm table was measured at
+                sw_call = 0.0 if len(case["points"]) % 3 == 0 else sw
+                res.labels["from_table_Sw"] = "0.0" if sw_call == 0.0 else "as the kr table"
+                fp = lib("FlowPropertiesTwoPhase.from_table", FlowPropertiesTwoPhase.from_table, dict(tab), kr_in, dict(rho), phi, sw_call, float(p_nodes[-1]))
             al = np.asarray(fp.pvt_props["alpha"], float)
-            c_nodes = np.asarray(compressibility_combined_func(p_nodes, tab["So"], phi, sw, pvt), float)
+            c_nodes = np.asarray(compressibility_combined_func(p_nodes, tab["So"], phi, sw_call, pvt), float)
+            if not np.all(c_nodes > 0):
+                return res
             want = lam_nodes / c_nodes
             res.check("C16/tabulated-diffusivity", float(np.max(np.abs(al - want) / np.abs(want))), 1e-10, "alpha column of from_table vs documented mobility / library compressibility at the nodes;")
             res.labels["from_table"] = "checked"
